@@ -29,6 +29,14 @@ Sources of the rules (docs.ponyorm.org api_reference `db_session`, transactions.
       on whether a transaction is open (immediate mode): both outcomes are accepted (TransactionError = rejected).
   R8  db_session(retry=n) as context manager, the same class in both exception lists, retry/serializable on a
       generator function: TypeError, body never runs.
+  R10 a callable allowed_exceptions that itself raises while classifying the body's exception has not allowed it:
+      nothing of that attempt is committed (now or by any later session); either the predicate's error or the body's
+      exception propagates.  (Combined with a retryable exception the documentation gives no order: inconclusive.)
+  R11 closing a suspended @db_session generator (close(), or dropping the last reference) is not a normal finish:
+      whatever the body does while handling GeneratorExit (catching it, writing, returning quietly) is rolled back
+      unless it commits explicitly; a body that yields again gets Python's RuntimeError('generator ignored
+      GeneratorExit'); exceptions escape from close() but are swallowed when the generator is merely dropped.
+  R12 a later db_session in the same thread commits exactly its own changes, never leftovers of an earlier session.
   R9  flushing an INSERT whose primary key already exists in the table raises TransactionIntegrityError (a
       TransactionError) at the next flush()/commit()/session exit (test_retry_10).
 """
@@ -44,11 +52,14 @@ PARENTS = {
     'K': ['BaseException'],
     'OrmError': ['Exception'], 'TE': ['OrmError'], 'TIE': ['TE'],
     'HR': ['Exception'], 'HE': ['HR'], 'HR2': ['HR'], 'HE2': ['HE'],
+    'RuntimeError': ['Exception'],
+    'PE': ['Exception'],          # the error a badly written allowed_exceptions predicate raises (R10)
 }
 BODY_CLASSES = ['A', 'B', 'C', 'D', 'E', 'K', 'TE', 'TIE']           # what a body may raise
 BOTTLE_CLASSES = ['HR', 'HE', 'HR2', 'HE2']
 LIST_CLASSES = ['A', 'B', 'C', 'D', 'E', 'K', 'TE', 'TIE', 'Exception']   # what exception lists may name
-CATCH_CLASSES = ['A', 'B', 'C', 'D', 'E']                     # what the body itself may catch
+CATCH_CLASSES = ['A', 'B', 'C', 'D', 'E']                     # what the body itself may catch around a nested session
+YIELD_CATCH_CLASSES = CATCH_CLASSES + ['GeneratorExit', 'BaseException']   # ... and around a yield
 
 
 class Inconclusive(Exception):
@@ -179,6 +190,8 @@ def run_block(m, block, depth, yield_outcomes, in_generator):
             if not in_generator or depth != 1:
                 raise Inconclusive('yield outside the top level of a generator session')
             m.probe('yield')
+            if m.closing:
+                raise MExc('RuntimeError', 'python')       # R11: generator ignored GeneratorExit
             k = m.n_yields
             m.n_yields += 1
             if m.view != m.committed:
@@ -197,8 +210,11 @@ def run_block(m, block, depth, yield_outcomes, in_generator):
                 if not matches(step[1], action[1]):
                     m.points.append('thrown')
                     raise MExc(action[1], 'thrown', idx)
-            elif action[0] == 'close':
-                raise MClose()
+            elif action[0] in ('close', 'abandon'):
+                m.closing = action[0]
+                if not matches(step[1], 'GeneratorExit'):
+                    raise MClose()
+                m.close_caught = True                      # R11: the body goes on while being closed
         elif op == 'nest':
             spec, inner, catch = step[1], step[2], step[3]
             if spec['form'] == 'context' and spec['opts'].get('retry'):
@@ -228,14 +244,29 @@ def predict(case, yield_outcomes=()):
     m = State(case.get('initial') or [])
     m.caught = 0
     m.ambiguous_te = False
+    m.closing = None
+    m.close_caught = False
     m.outer_serializable = bool(opts.get('serializable')) and form in ('decorator', 'context')
     exp = {'reject': None, 'executions': 0, 'exc': None, 'finals': None, 'outcome': None,
            'retried': 0, 'decisive': False}
 
-    def finish(outcome, exc=None, finals=None):
+    def finish(outcome, exc=None, finals=None, alternatives=()):
         exp['outcome'] = outcome
         exp['exc'] = None if exc is None else {'cls': exc.cls, 'origin': exc.origin, 'index': exc.index}
         exp['finals'] = finals if finals is not None else [rows_of(m.committed)]
+        exp['exc_alternatives'] = alternatives
+        exp['closing'] = m.closing
+        exp['close_caught'] = m.close_caught
+        # R12: the following session's own writes, applied to each acceptable state
+        after = case.get('after') or []
+        exp['finals_after'] = []
+        for f in exp['finals']:
+            d = dict((k, v) for k, v in f)
+            for step in after:
+                if step[0] != 'set':
+                    raise Inconclusive('only set steps in the following session')
+                d[step[1]] = step[2]
+            exp['finals_after'].append(rows_of(d))
         exp.update(probes=m.probes, views=m.views, trace=m.trace, points=m.points, depth=m.max_depth,
                    caught=m.caught, ambiguous_te=m.ambiguous_te)
         return exp
@@ -258,11 +289,17 @@ def predict(case, yield_outcomes=()):
             exp['reject'] = 'TypeError'
             return finish('rejected')
 
+    def predicate_raises(cls):
+        return bool(form in ('decorator', 'context') and allowed is not None and allowed['kind'] == 'callable'
+                    and matches(allowed.get('raises_for') or [], cls))
+
     def is_allowed(cls):
         if form == 'bottle':
             return is_sub(cls, 'HR') and not is_sub(cls, 'HE')
         if form == 'flask' or allowed is None:
             return False
+        if allowed['kind'] == 'callable' and matches(allowed.get('raises_for') or [], cls):
+            return False                   # R10 (generator sessions never ask the predicate)
         return matches(allowed['classes'], cls)
 
     def is_retryable(cls):
@@ -295,6 +332,11 @@ def predict(case, yield_outcomes=()):
             except StopIteration:
                 pass
             exp['drive_used'] = pos
+            if m.closing:
+                # R11: the body caught GeneratorExit and returned quietly -- not a normal finish
+                exp['decisive'] = m.view != m.committed and not m.poison
+                m.do_rollback()
+                return finish('closed_after_catch')
             # body finished: R1
             decisive = m.view != m.committed
             m.do_commit()
@@ -311,6 +353,15 @@ def predict(case, yield_outcomes=()):
             return finish('closed')
         except MExc as e:
             exp['drive_used'] = pos
+            if m.closing == 'abandon':
+                # R11: nobody is there to receive the exception
+                exp['decisive'] = m.view != m.committed and not m.poison
+                if is_allowed(e.cls) and exp['decisive']:
+                    both = [rows_of(m.committed), rows_of(m.view)]
+                    m.do_rollback()
+                    return finish('abandoned_error_allowed_either', None, both)
+                m.do_rollback()
+                return finish('abandoned_error')
             if (e.cls == 'TIE' and e.origin == 'pony') or not is_allowed(e.cls) or m.view == m.committed:
                 exp['decisive'] = m.view != m.committed and not m.poison
                 m.do_rollback()
@@ -338,6 +389,14 @@ def predict(case, yield_outcomes=()):
         except MExc as e:
             last = e
             pending = m.view != m.committed and not m.poison
+            if predicate_raises(e.cls):
+                if is_retryable(e.cls):
+                    raise Inconclusive('predicate raises for a retryable exception')
+                exp['decisive'] = exp['decisive'] or pending        # R10
+                exp['pending_at_exit'] = rows_of(m.view)
+                m.do_rollback()
+                return finish('predicate_error', MExc('PE', 'predicate'), alternatives=[
+                    {'cls': e.cls, 'origin': e.origin, 'index': e.index}])
             if is_retryable(e.cls):
                 exp['decisive'] = exp['decisive'] or pending or n_attempts > 1
                 if i + 1 < n_attempts:
